@@ -49,4 +49,8 @@ G['hdlc'] = {'files': ALLFILES, 'harnesses': [
       'as crc_len2', 'all 3-byte messages', bounded='message length 3 (complete for that length)', thorough_only=True),
     H('crc_len4', 'src/hdlc_deframer.rs', 'hdlc_deframer::calc_crc + FCSTAB', 'C13.crc.len4', ['C13', 'C15'],
       'as crc_len2', 'all 4-byte messages', bounded='message length 4 (complete for that length)', thorough_only=True),
+    H('crc_len6', 'src/hdlc_deframer.rs', 'hdlc_deframer::calc_crc + FCSTAB', 'C13.crc.len6', ['C13', 'C15'],
+      'as crc_len2', 'all 6-byte messages', bounded='message length 6 (complete for that length)', thorough_only=True),
+    H('crc_len8', 'src/hdlc_deframer.rs', 'hdlc_deframer::calc_crc + FCSTAB', 'C13.crc.len8', ['C13', 'C15'],
+      'as crc_len2', 'all 8-byte messages', bounded='message length 8 (complete for that length)', thorough_only=True),
 ]}
